@@ -2,6 +2,7 @@
 findall/3, duplicates included) and a bottom-up least-model evaluator (recursive programs, answer sets)."""
 import itertools
 import random
+import re
 
 from bounded.c14 import mgu, apply, show, canon, _listnorm
 from bounded.pipeline import pmap
@@ -187,7 +188,9 @@ def check(payload):
     elif got_items != exp_items:
         texts = [clause_str(c) for c in prog]
         dup = len(set(texts)) < len(texts)
-        varhead = any(not body and any(a[0] == "v" for a in head[2]) for head, body in prog)
+        # the class is a property of the deviation, not of the program: some answer is non-ground (the known
+        # finding is about non-ground answers being tabled apart from ground ones)
+        varhead = any(re.search(r"\bV\d+\b", x) for x in exp_items)
         hasneg = any(b[0] == "not" for _, body in prog for b in body)
         out["violations"].append(("findall-order:duplicate-clauses" if dup else
                                   ("findall-order:variable-headed-facts" if varhead else
@@ -236,4 +239,71 @@ def run(pid, tier, seed):
         col.case(r["case"], nontrivial=r["nontrivial"])
         for name, text in r["violations"]:
             col.violation("bounded:c13:" + name, "%s\nprogram:\n%s" % (text, r["case"]), dict(program=r["case"]))
-    return [col.result()]
+    return [col.result(), run_index(tier, seed)]
+
+
+# ---------------------------------------------------------------- function-level contract: ClauseIndex.find
+def check_index(payload):
+    """Run-time contract on the real ClauseIndex.find of the prepared database (the contract of DESIGN.md A.3):
+    for every argument pattern, find() returns exactly the clauses whose ground arguments do not clash with the
+    ground arguments of the call, in program order, without duplicates, and leaves the index as it was."""
+    facts, patterns = payload
+    from problog.program import PrologString
+    from problog.engine import DefaultEngine
+    from problog.logic import Term, is_ground
+    src = "\n".join("p(%s)." % ",".join(f) for f in facts) + "\n"
+    out = dict(case=src + "find: " + "; ".join(",".join(p) for p in patterns), violations=[], nontrivial=False)
+    try:
+        db = DefaultEngine().prepare(PrologString(src))
+        arity = len(facts[0])
+        define = db.get_node(db.find(Term("p", *([None] * arity))))
+        index = define.children
+        clause_ids = list(index)
+        clause_args = [db.get_node(c).args for c in clause_ids]
+
+        def snapshot():
+            return [dict((k, list(v)) for k, v in d.items() if len(v)) for d in index._ClauseIndex__index], list(index)
+        before = snapshot()
+        for rnd in range(2):        # twice: a find() that pollutes the index shows in the second round
+            for pat in patterns:
+                call = [None if a[0].isupper() else Term.from_string("w(%s)" % a).args[0] for a in pat]
+                expected = [cid for cid, cargs in zip(clause_ids, clause_args)
+                            if all(q is None or not is_ground(c) or c == q for q, c in zip(call, cargs))]
+                got = list(index.find(call))
+                if len(expected) > 1:
+                    out["nontrivial"] = True
+                if sorted(got) != sorted(expected):
+                    out["violations"].append(("clauseindex-find:wrong-clauses", "find(%s) round %d returns clauses %s, the matching "
+                                              "clauses are %s" % (",".join(pat), rnd, got, expected)))
+                elif got != expected:
+                    out["violations"].append(("clauseindex-find:order", "find(%s) round %d returns clauses %s, program order is %s"
+                                              % (",".join(pat), rnd, got, expected)))
+                if snapshot() != before:
+                    out["violations"].append(("clauseindex-find:index-modified", "find(%s) changed the index" % ",".join(pat)))
+                    before = snapshot()
+    except Exception as ex:      # noqa
+        out["violations"].append(("clauseindex-find:exception:" + classify_exception(ex).split(":", 1)[1], classify_exception(ex)))
+    return out
+
+
+def run_index(tier, seed):
+    rng = random.Random(seed * 911 + 13)
+    n = 2000 if tier == "thorough" else 300
+    payloads = []
+    for _ in range(n):
+        arity = rng.choice([1, 2, 2, 3])
+        facts = [tuple(rng.choice(CONSTS + ["f(a)"]) if rng.random() < 0.7 else rng.choice(["X", "Y"]) for _ in range(arity))
+                 for _ in range(rng.randint(2, 7))]
+        patterns = [tuple(rng.choice(CONSTS + ["f(a)", "zz"]) if rng.random() < 0.6 else "V" for _ in range(arity))
+                    for _ in range(rng.randint(2, 5))]
+        payloads.append((facts, patterns))
+    col = Collector("C13:ClauseIndex.find", "%d seeded fact lists for p/1..3 (2-7 clauses over %s, f(a) and variables) prepared by the "
+                    "real engine; 2-5 argument patterns each (constants, an unknown constant, unbound), every pattern looked up "
+                    "twice; ClauseIndex.find must return exactly the non-clashing clauses in program order and leave the index "
+                    "unchanged; distinct = (facts, patterns); non-trivial = some lookup matches more than one clause"
+                    % (n, CONSTS))
+    for r in pmap("bounded.c13.check_index", payloads):
+        col.case(r["case"], nontrivial=r["nontrivial"])
+        for name, text in r["violations"]:
+            col.violation("bounded:c13:" + name, "%s\nprogram:\n%s" % (text, r["case"]), dict(program=r["case"]))
+    return col.result()
